@@ -63,6 +63,8 @@ func main() {
 		for _, id := range sortedKeys(registry) {
 			fmt.Println(id)
 		}
+	case "genparams":
+		os.Exit(cmdGenParams(os.Args[2:]))
 	case "mutants":
 		os.Exit(cmdMutants(os.Args[2:]))
 	default:
@@ -224,5 +226,34 @@ func cmdExplain(args []string) int {
 		return 2
 	}
 	fmt.Println(string(b))
+	return 0
+}
+
+// cmdGenParams prints refparams_gen.go: the parameter names of every module
+// function on the tree the rule tables were transcribed from.
+func cmdGenParams(args []string) int {
+	w, err := Load("/repo/v8", "", "", "")
+	if err != nil {
+		fmt.Fprintln(os.Stderr, err)
+		return 2
+	}
+	fmt.Println("// Code generated by `gokrb5lint genparams`; frozen deliberately — regenerate only when the rule tables are re-transcribed.")
+	fmt.Println("package main\n")
+	fmt.Println("var refParams = map[string][]string{")
+	for _, fn := range w.ModuleFuncs() {
+		params := fn.Params
+		if fn.Signature.Recv() != nil && len(params) > 0 {
+			params = params[1:]
+		}
+		if len(params) == 0 {
+			continue
+		}
+		var ns []string
+		for _, p := range params {
+			ns = append(ns, strconv.Quote(p.Name()))
+		}
+		fmt.Printf("\t%q: {%s},\n", FuncKey(fn), strings.Join(ns, ", "))
+	}
+	fmt.Println("}")
 	return 0
 }
